@@ -186,9 +186,12 @@ def r19_1(ctx: Ctx) -> None:
            "when an area had to be split, the first half is appended and the second half takes the place of the area for the "
            "final append (two linked halves, once each)", form="")
     ret = [r for r in walk_local(func) if isinstance(r, ast.Return)]
-    ok = len(ret) == 1 and isinstance(ret[0].value, ast.ListComp) and len(ret[0].value.generators) == 1 \
-        and txt(ret[0].value.generators[0].iter) == "converted" and not ret[0].value.generators[0].ifs \
-        and txt(ret[0].value.elt) == f"{txt(ret[0].value.generators[0].target)}.to_minimal_json()"
+    comp = ret[0].value if len(ret) == 1 else None
+    if isinstance(comp, ast.Call) and call_name(comp) in ("list", "tuple") and len(comp.args) == 1 and not comp.keywords:
+        comp = comp.args[0]
+    ok = isinstance(comp, (ast.ListComp, ast.GeneratorExp)) and len(comp.generators) == 1 \
+        and txt(comp.generators[0].iter) == "converted" and not comp.generators[0].ifs \
+        and txt(comp.elt) == f"{txt(comp.generators[0].target)}.to_minimal_json()"
     ctx.ob("R19.1", AP, func, qual, "all areas returned", ok, "every converted area is emitted", form="")
 
 
@@ -524,10 +527,12 @@ def r19_4(ctx: Ctx) -> None:
             count += 1
             tested = set()
             for expr, truth in path_facts(cfg, node):
-                for sub in ast.walk(expr):
+                anchor = expr if hasattr(expr, "_parent") else node
+                resolved = inline_reaching(cfg, anchor, expr)   # a named test (`after_origin = ... and x.start < L / 2`)
+                for sub in ast.walk(resolved):
                     if isinstance(sub, ast.Compare):
                         for side in [sub.left] + list(sub.comparators):
-                            d = mine(side, expr)
+                            d = dotted(side) if dotted(side) and dotted(side).split(".")[0] == param else mine(side, anchor)
                             if d:
                                 tested.add(d)
             ctx.ob("R19.4", REGION, node, f"{qual}.{target.name}", f"shifted coordinate {accessor}", tested == {accessor},
